@@ -10,3 +10,24 @@ package keeper
 //@   flag prune
 //@   ensures[C10.up.exomint] isMainnet(unwrap_ctx(ctx)) && k.authority != old(msg.Authority) ==>
 //@        err != nil && state(unwrap_ctx(ctx)) == old(state(unwrap_ctx(ctx)))
+
+// ---------------------------------------------------------------------------------------------
+// C17: the epoch reward is minted exactly once at the end of a matching epoch (and forwarded to the fee
+// collector), and never otherwise. Ghost events: mkEv(50, module, amount) = bank.MintCoins,
+// mkEv(51, recipient, amount) = bank.SendCoinsFromModuleToModule.
+
+//@ define mintParams(c) = unm["x/exomint/types.Params"](get(c, "exomint", bytelit(g("x/exomint/types.bytePrefixParams"))))
+
+//@ func (EpochsHooksWrapper).AfterEpochEnd
+//@   requires wrapper.keeper != nil
+//@   modifies store(ctx, "bank"), trace
+//@   ensures[C17.mint.other]  identifier != mintParams(ctx).EpochIdentifier || val(mintParams(ctx).EpochReward) == 0 ==>
+//@        traceN() == old(traceN()) && state(ctx) == old(state(ctx))
+//@   ensures[C17.mint.once]   identifier == mintParams(ctx).EpochIdentifier && val(mintParams(ctx).EpochReward) > 0 ==>
+//@        traceN() >= old(traceN()) + 1 && traceN() <= old(traceN()) + 2 &&
+//@        traceAt(old(traceN())) == mkEv(50, g("x/exomint/types.ModuleName"), val(mintParams(ctx).EpochReward)) &&
+//@        (traceN() == old(traceN()) + 2 ==> ev_kind(traceAt(old(traceN()) + 1)) == 51 && ev_num(traceAt(old(traceN()) + 1)) == val(mintParams(ctx).EpochReward))
+//@   ensures[C17.mint.frame]  forall(i, 0, old(traceN()), traceAt(i) == old(traceAt(i)))
+
+//@ func (EpochsHooksWrapper).BeforeEpochStart
+//@   ensures[C17.mint.start_noop] true
